@@ -11,6 +11,7 @@ import Proofs.C03
 import Proofs.Lemmas.CrashSeq
 import Proofs.Lemmas.CrashSeqF1
 import Proofs.Lemmas.CrashFlatMain
+import Proofs.Lemmas.CrashSent
 namespace Asl.C04
 open Asl
 
@@ -188,7 +189,8 @@ theorem crash_free_task_sequences (N : Nat) :
 
 open Asl.Crash in
 /-- **Exactly once, with fan-outs.**  For every *flat* skeleton `sk` — Task visits (first attempts and retries), plain steps
-and Waits, and any number of Parallel / Map states (without MaxConcurrency), one after the other, each with any number of
+and Waits, and any number of Parallel / Map states (without MaxConcurrency, or with one that is at least the number of
+branches: one batch), one after the other, each with any number of
 branches that are sequences of Task visits, steps and Waits — and every schedule — any interleaving of the branches'
 operations that the protocol has enabled, the engine dying and restarting between two handler invocations any number of
 times, at any points (before the launch, between the branches' visits, with any part of the join filled) —, letting the
@@ -207,6 +209,28 @@ theorem crash_safe_flat (sk : Sk) (hsk : sk.flat = true) (ops : List Op) (c : Cf
   have he := pended hi' hq
   exact ⟨he, observe_ended _ _ he⟩
 
+/-! #### (i'') every skeleton: no request is sent twice -/
+
+open Asl.Crash in
+/-- **Never twice, on every skeleton.**  For EVERY skeleton `sk` the model can express — Task visits and retries, steps,
+Waits, Parallel / Map states with any MaxConcurrency (batches and their re-entry events), fan-outs nested to any depth,
+synchronous child executions, failure points caught at any level or failing the execution — and EVERY schedule of the
+quirk-free protocol — any interleaving, the engine dying between handler invocations or inside them (each handler cut
+short after any number of its broker operations) —, and however long the engine then runs on crash-free (`fuel`): the
+correlation ids of the requests sent are pairwise different, so `observe` reports no request as sent again.  This is the
+property's clause "a Task whose request went out before the crash is not requested again" at full generality (per
+correlation id; that the *count* of requests is the crash-free one is `crash_safe_flat`, on the class proved there —
+the re-launched batch of C04-F7 sends under fresh ids).  With `requestFromTimer` (C04-F1) on it fails:
+`redelivered_retry_not_resent`.  (`Proofs/Lemmas/CrashSent.lean`: no handler's operation list has a request except the one
+the delivery / deferred handler of a Task visit puts first, and that one is guarded by the durable record.) -/
+theorem never_requested_twice (sk : Sk) (sched : Sched) (c : Cfg)
+    (hr : Crash.run Quirks.none (init sk) sched = some c) (fuel : Nat) :
+    c.sent.Nodup ∧ (drain Quirks.none fuel c).sent.Nodup ∧ (observe (drain Quirks.none fuel c)).resent = [] := by
+  have h0 : (init sk).sent.Nodup := List.nodup_nil
+  have h1 := run_sent_nodup sched _ c hr h0
+  have h2 := drain_sent_nodup fuel c h1
+  exact ⟨h1, h2, resent_nil_of_nodup _ h2⟩
+
 open Asl.Crash in
 /-- The full-strength statement: the quirk-free protocol is crash-safe on skeleton `sk` — every schedule with crashes
 between handler invocations anywhere ends, after a crash-free run, with one terminal notification, every request (Task
@@ -216,11 +240,33 @@ def CrashSafe (sk : Sk) : Prop :=
     ∃ fuel, Ended (tasksIn sk) (drain Quirks.none fuel c)
 
 open Asl.Crash in
-/-- `CrashSafe` is proved for flat skeletons (which include all sequences).  What is missing for `∀ sk, CrashSafe sk` (on
-skeletons without `fail` / `opaque`): Map states with MaxConcurrency (the batches and their re-entry events — the model has
-them, with the durable record of started batches, and `decide` examples below run them —, not yet in the invariant), fan-out
-states nested in branches (the crash-safe hand-over of a nested join's held events to the enclosing join), and synchronous
-child executions (a second execution whose terminal answer is a message of the reply queue). -/
+/-- `CrashSafe` is proved for flat skeletons: sequences, and fan-out states whose branches are sequences, without
+MaxConcurrency or with a MaxConcurrency of at least the number of branches (one batch).  What is missing for
+`∀ sk, CrashSafe sk` (on skeletons without `fail` / `opaque`):
+* Map states whose MaxConcurrency `mc` is smaller than the number of items.  The model has the batches, their re-entry events
+  and the durable record of started batches, and the `decide` examples below run them; `never_requested_twice` covers them
+  for the "not again" clause.  What `PInv` lacks (everything else of `CrashFlat*.lean` is indifferent to `mc`):
+  (a) `Shape.cover` per batch instead of per fan-out — the batch-mates of a launched slot are launched
+      (`i / mc = f.idx / mc → slot i has its event`), slot 0 is, and for the record `batches` of attempt `J`:
+      `(J, s) ∈ batches →` the re-entry event for `s` is queued or slot `s` has its event; a slot of batch `k ≥ 1` has its
+      event only if `(J, k * mc) ∈ batches`; `batches` is closed downwards; a queued re-entry event for `s` has every
+      launched slot in an earlier batch (so its launch keeps `Shape.same`: one event per slot);
+  (b) the liveness half, about the join in memory: a batch `k` all of whose slots are filled, with `(k + 1) * mc` short of the
+      width, has `(J, (k + 1) * mc) ∈ batches` (true after a crash: nothing is filled).  With (a), `pquiet` goes by induction
+      on the batch number: every slot has its event, so a queue all of whose events are held is a complete join;
+  (c) `mu2` and `Cons2.phi` with the slots not yet launched accounted for (to the event of slot 0, from the number of
+      recorded batches, and to the re-entry event for the batch it is about to launch);
+  (d) three handler lemmas: the end of a branch that completes a batch (`advance_hold` publishing the re-entry event — today
+      it is stated under `batch_not_done`), the delivery of the re-entry event (as `flat_arm`), its deferred handler
+      (`flat_launch` for a later batch, appending to the branch events that are there).
+  One more thing is in the way: when a crash has wiped the join and the LAST batch is refilled before the
+  earlier held events are redelivered, the quirk-free model publishes a re-entry event for a batch beyond the last one
+  (`from_ + mc = width`; the example "a re-entry event beyond the last batch" below).  It is harmless — it launches nothing,
+  or is dropped when it is delivered after the end — but it is still in the event queue when the terminal notification is
+  published, which `Cons2.psi1` (notification ⇒ empty event queue) excludes: either the model gets the guard
+  `from_ + mc < width` (all proofs here still build with it) or `psi1` is weakened to "only such events are left".
+* fan-out states nested in branches (the crash-safe hand-over of a nested join's held events to the enclosing join), and
+* synchronous child executions (a second execution whose terminal answer is a message of the reply queue). -/
 theorem crash_safe_partial (sk : Sk) (hsk : sk.flat = true) : CrashSafe sk :=
   fun ops c hr => ⟨mu2 c, (crash_safe_flat sk hsk ops c hr).1⟩
 
@@ -357,6 +403,31 @@ example : (Asl.Crash.Sk.task 0 (.par 0 (.cons (.task 0 (.task 1 (.step .done))) 
         (.cons (.wait .done) (.cons (.task 0 .done) .nil))) (.step .done))))
       ([Asl.Crash.Op.ev 0, .rp 0, .ev 1, .crash, .ev 1, .tm 1, .ev 2, .ev 4, .crash, .ev 3, .tm 3, .rp 4, .ev 4, .ev 2, .tick,
         .crash, .ev 2, .rp 2, .ev 3, .tm 3].map (fun o => (o, none)))).isSome = true := by
+  decide +kernel
+/-- … with a MaxConcurrency: a Map over two items, three at a time, with a crash while the join is half full -/
+example : (Asl.Crash.Sk.par 3 (.cons (.task 0 (.step .done)) (.cons (.task 0 (.step .done)) .nil)) (.step .done)).flat = true ∧
+    (Asl.Crash.run Asl.Crash.Quirks.none (Asl.Crash.init (.par 3 (.cons (.task 0 (.step .done)) (.cons (.task 0 (.step .done)) .nil)) (.step .done)))
+      ([Asl.Crash.Op.ev 0, .tm 0, .ev 1, .rp 1, .ev 3, .crash, .ev 2, .ev 3].map (fun o => (o, none)))).isSome = true := by
+  decide +kernel
+/-- hypothesis of `never_requested_twice`: a Map with MaxConcurrency 1 over a Task and a nested Parallel (a child execution and
+a Wait), then a failure point; the launch cut short after its first broker operation, a Task's delivery cut before its
+request, the engine dying once more between handlers -/
+example : (Asl.Crash.run Asl.Crash.Quirks.none
+      (Asl.Crash.init (.par 1 (.cons (.task 0 (.step .done))
+        (.cons (.par 0 (.cons (.child 0 (.task 0 .done) .done) (.cons (.wait .done) .nil)) .done) .nil)) (.fail none .done)))
+      [(.ev 0, none), (.tm 0, some 1), (.ev 0, none), (.tm 0, none), (.ev 1, some 0), (.ev 1, none), (.crash, none),
+       (.ev 2, none), (.ev 1, none)]).isSome = true := by
+  decide +kernel
+/-- a re-entry event beyond the last batch (see `crash_safe_partial`): a Map with MaxConcurrency 1 over two items, the engine
+dies once the second item is launched, the second item ends first: a re-entry event for slot 2 of 2 is published; when the
+first item's event has been redelivered the execution has ended (one notification) with that event still queued; the run ends
+all the same -/
+example :
+    ((Asl.Crash.run Asl.Crash.Quirks.none (Asl.Crash.init (.par 1 (.cons (.step .done) (.cons (.step .done) .nil)) .done))
+      ([Asl.Crash.Op.ev 0, .tm 0, .ev 1, .ev 2, .tm 2, .crash, .ev 3, .ev 1].map (fun o => (o, none)))).map
+        (fun c => (c.evq.map (fun m => match m.kind with | .reenter _ s _ _ => some s | _ => none), c.notes,
+          (Asl.Crash.drain Asl.Crash.Quirks.none 100 c).evq.length, (Asl.Crash.drain Asl.Crash.Quirks.none 100 c).notes))) =
+      some ([some 2], 1, 0, 1) := by
   decide +kernel
 /-- beyond the proved class, by computation: a Map with MaxConcurrency 1 over two items (Task, then step) with a crash
 after the second batch was started — the crash-safe protocol does not start the batch again (two requests), the engine's
